@@ -78,3 +78,25 @@ chk('C17', 'model-based histories over original / deepcopy / dill copies, compar
     'Up to three live objects (original, deepcopy, dill round trip) of one model receive interleaved calculate-with-overrides / compile+call (the compiled function is itself copied) / finish / to_dict / write; every observed result must equal the independent evaluation and a fresh model. Formula-level compiled functions are copied and called interleaved with different arguments; circular models are copied and compared with fresh ones.',
     'A copy carries no cells/books (the repo drops them on pickling): re-finishing a copy is only required not to disturb the others. Shared-memo base conversions are covered by C20 (interleaved part).',
     'DESIGN.md 2/C17')
+
+# ---- additions made after the seeded-change rounds (appended to the level text of each check)
+_EXTRA = {
+    'C02': 'Third spelling for cell-valued operands: the compiled function of =B1 op C1 called directly with the two values.',
+    'C03': 'File presentations also with cross-book references in the numbered-link form of real xlsx files ([k]Sheet!A1 + external-link parts incl. non-xlsx targets), array areas across the Z/AA and ZZ/AAA column borders with cached spill values, text constants that start like an error value.',
+    'C04': 'Third observation point for relative R1C1 spellings: Cell(host address, formula).compile().inputs; the host workbook directory is varied for numbered-link spellings.',
+    'C05': 'Enumerated parts: one array of elements equal as Python values but of different Excel kinds (1/TRUE/0/FALSE/"1") in calls of 8-40 arguments; outer(inner(X)) against outer(<literal of inner(X)>) into destinations larger than the result.',
+    'C06': 'Operators must leave their operands unchanged; every area of a result must be a rectangle whose name reads back to itself; results of the range operator are used as operands again; references assembled step by step with .value read in between; simplify() over whole rows/columns.',
+    'C07': 'Histories also call functions compiled earlier again after the operations in between, supply values through names defined by a formula and through alias names; enumerated sparse-range sequences (rectangles most of whose cells are unpopulated: what-ifs over the whole, a part, through a name, then plain recalculation).',
+    'C08': 'A what-if calculation on the model between two calls of the compiled function (same and other targets); enumerated parts: sparse-range sequences (compile / call / what-if interleaved, two functions of one model), alias chains of 2-3 names as inputs; names defined by a formula in the model; an AttributeError/TypeError/KeyError out of compile() is a failure.',
+    'C09': 'A dictionary-path part with arbitrary IEEE doubles; the export of a deep copy must equal the export; blank placeholders that are due in the first export whatever the iteration order (narrows listed finding F37) plus enumerated placeholder shapes; unions as one argument and LARGE/SMALL in formulas.',
+    'C10': 'Enumerated family: two avoidable cycles, the back edge of one being a rectangle that holds a cell of the other, every guard combination and three cell orders, with signatures of their own.',
+    'C12': 'Enumerated metamorphic part: aggregation(IS-function(range)) must equal aggregation(<literal logical array>) for 23 aggregations x 7 inner functions.',
+    'C13': 'The re-converging shapes are compiled ten ways: original, deepcopy, copy, dill copy, compiled twice, after a first calculation, after the model grew (volatile cells added by a second import, also into a constant cell and into a blank placeholder cell).',
+    'C14': 'Further faults: spill references (ANCHORARRAY) to an absent sheet / absent or unreadable book / a non-array cell; formulas with 2-3 different unresolved items each under its own IFERROR/ISERROR/ISNA (expected: the ordinary intercepted value); #REF! as an operand of the reference operators (any error value accepted, aborting is not).',
+    'C15': 'Files also with numbered external links and with array formulas whose spill cells are not stored; enumerated shapes with array areas beyond the rectangle of stored cells.',
+    'C16': 'compare() with the solution, without it, without it after a later what-if calculation, with one file at a time and with the files in reverse order.',
+    'C17': 'Every to_dict() in a history is imported again and compared with the reference of that object; references to names nobody defines; enumerated sparse-range what-ifs (incl. a value for an unpopulated cell) applied to deepcopy / dill copies taken before or after a first calculation, with the original re-checked afterwards.',
+    'C18': 'Enumerated exemplars: every operand form, bare / signed / with postfix %, in every argument position (valid ones: totality and round trip; with a dangling operator: must be rejected).',
+}
+for _p, _t in _EXTRA.items():
+    CHECKS[_p]['text'] = CHECKS[_p]['text'].rstrip() + ' ' + _t
